@@ -111,7 +111,7 @@ var soundFamilies = []string{"framing", "der-edits", "body-r", "body-s", "values
 
 func sound(x *mon.Ctx) {
 	selfTest(x)
-	nb := x.Scale(72, 900)
+	nb := x.Scale(72, 600)
 	for idx := 0; idx < nb; idx++ {
 		for _, fam := range soundFamilies {
 			c := x.Begin("sound base=%d family=%s (base signature: key/uid/msg/k from NewRand(seed,\"c06.sound.base\",%d))", idx, fam, idx)
